@@ -1,7 +1,8 @@
 (* C08 — n-of-n distributed keys: joint decryption recovers the plaintext. *)
 From Coq Require Import ZArith List Permutation.
 From Strand Require Import Model.Outcome Model.Codec Model.Backend Model.Zkp Model.Keymaker
-  Proofs.Laws Proofs.KeymakerP.
+  Proofs.Laws Proofs.KeymakerP Base.ZUtil
+  Base.ZpField Base.Edwards Model.Ristretto Model.RistrettoFast Model.RBackend Proofs.RistrettoGroup Proofs.EdwardsBackend.
 Import ListNotations.
 Open Scope Z_scope.
 
@@ -56,3 +57,12 @@ Theorem C08_missing_factor : forall (B : Backend) (mem : E B -> Prop), Laws B me
   (b_mulp B m (b_pow B (gr c) x) = m <-> b_pow B (gr c) x = b_one B).
 Proof. exact joint_dec_missing_factor. Qed.
 Print Assumptions C08_missing_factor.
+
+(* the curve25519 Edwards group satisfies the laws without hypotheses (Proofs/EdwardsBackend.v): n-of-n joint
+   decryption recovers the plaintext point for every n >= 1 *)
+Theorem C08_edwards_group : forall (K : Kernel) (sks : list Z) (m : E (AB K)) (r : Z) (pk : E (AB K)), sks <> [] -> Forall (fun x => 0 <= x) sks -> 0 <= r -> memA m ->
+  combine_pks (AB K) (map (pk_of_sk (AB K)) sks) = Ok pk ->
+  let c := encrypt_with_randomness (AB K) pk m r in
+  joint_dec (AB K) (map (fun sk => decryption_factor (AB K) sk c) sks) c = Ok m.
+Proof. intro K. exact (joint_dec_correct (AB K) memA (AB_laws K)). Qed.
+Print Assumptions C08_edwards_group.
